@@ -439,8 +439,9 @@ def emit_extract(gen, ex, repo_root, unit):
     for order, b in enumerate(ex.blocks):
         if b.kind == 'rewrite':
             before, after = b.text(), '\n'.join(b.with_lines or [])
-            cnt = int(parse_opts(b.arg.split()).get('count', 1))
+            cnt_opt = parse_opts(b.arg.split()).get('count', 1)
             found = [m for m in ws_pattern(before).finditer(item)]
+            cnt = len(found) if (cnt_opt == 'any' and found) else (-1 if cnt_opt == 'any' else int(cnt_opt))
             occ = [m.start() for m in found]
             if bodyless and len(occ) == 0:
                 continue  # a rewrite of body text: the body of an assumed function is not copied
@@ -448,7 +449,7 @@ def emit_extract(gen, ex, repo_root, unit):
                 raise ExtractError('rewrite at %s:%d matches %d times (expected %d) in fn %s: %r'
                                    % (unit, b.lineno, len(occ), cnt, ex.name, before[:60]))
             for m in found:
-                replaces.append((m.start(), m.end(), m.group(0), after))
+                replaces.append((m.start(), m.end(), m.group(0), after) + (('any',) if cnt_opt == 'any' else ()))
             gen.rewrites.append({'item': ex.name, 'before': before, 'after': after, 'count': cnt,
                                  'at': '%s:%d' % (ex.file, line_of(src, start + occ[0]))})
         elif bodyless and b.kind in ('loop', 'before', 'after', 'tail', 'body'):
@@ -504,6 +505,9 @@ def emit_extract(gen, ex, repo_root, unit):
         # marker right after the opening brace of the body (used by the vacuity canaries of the thorough tier)
         mk = Block('body', '', ex.lineno)
         inserts.append((rel_open + 1, -1, '/*@BODY:%s@*/' % ex.name, mk))
+    # an occurrence of a `count=any` rewrite that lies inside the range of a specific rewrite belongs to that rewrite
+    specific = [r_ for r_ in replaces if len(r_) == 4]
+    replaces = specific + [r_[:4] for r_ in replaces if len(r_) == 5 and not any(q[0] <= r_[0] and r_[1] <= q[1] for q in specific)]
     # no insert may fall inside a replaced range
     for (p, q, _, _) in replaces:
         for (pos, _, _, b) in inserts:
